@@ -203,6 +203,19 @@ def run_case(case: Dict[str, Any]) -> Dict[str, Any]:
             cf = torch.compile(ns["compiled_fn"], backend=backend)
             vb, lb = mk()
             yc, gc = run(cf, vb, lb)
+            # call history: the cached compiled function is called again with NEW values
+            t1 = op.make(cfg, torch.Generator().manual_seed(12))
+            if not dev and all(t1[k].shape == t0[k].shape for k in names):
+                def mk2() -> Any:
+                    vals = [t1[k].detach().clone().requires_grad_(k in diff) for k in names]
+                    return vals, [v for k, v in zip(names, vals) if k in diff]
+
+                v1, l1 = mk2()
+                ye2, ge2 = run(eager_fn, v1, l1)
+                v2, l2 = mk2()
+                yc2, gc2 = run(cf, v2, l2)
+                if not _close(yc2, ye2, tol) or any(not _close(a, b, tol, floor=3.0) for a, b in zip(gc2, ge2)):
+                    viol.append({"key": ident + "|second_call_differs", "msg": f"cfg={cfg}: cached compiled function with new values"})
         except Exception as e:  # noqa
             return {"violations": [exception_violation(e, ident)], "outcome": "raises"}
         what = None
@@ -238,6 +251,15 @@ def run_case(case: Dict[str, Any]) -> Dict[str, Any]:
             yc, gc = call(cm, args)
         except Exception as e:  # noqa
             return {"violations": [exception_violation(e, ident)], "outcome": "raises"}
+        try:
+            args3 = tuple(torch.cat([a, a[:1] * 0.5 if a.is_floating_point() else a[:1]], 0) for a in args)
+            if case["module"] != "CrossEntropyLoss":
+                ye3, ge3 = call(m, args3)
+                yc3, gc3 = call(cm, args3)
+                if not _close(yc3, ye3, tol) or any(not _close(a, b, tol, floor=3.0) for a, b in zip(gc3, ge3)):
+                    viol.append({"key": ident + "|new_batch_size_differs", "msg": "second call of the compiled module with a larger batch"})
+        except Exception as e:  # noqa
+            viol.append(exception_violation(e, ident + "|new_batch_size"))
         if not _close(yc, ye, tol):
             viol.append({"key": ident + "|compiled_differs|output", "msg": f"max err {(yc.double() - ye.double()).abs().max().item():.3e}"})
         else:
